@@ -166,7 +166,20 @@ func discharge(dir string, idx int, smt *SMT, o *Obligation, secs int, all bool)
 	// stage 1: z3-new, short budget
 	var s1 []job
 	if o.Vacuity {
-		s1 = []job{{solvers[0], fileReal, true, min(secs, 2)}}
+		// reachability / satisfiability checks are cheap and best effort: one short run; anything but a
+		// definite answer is "inconclusive"
+		best, res1 := run([]job{{solvers[0], fileReal, true, 3}}, true)
+		if best != nil {
+			return *best, res1
+		}
+		r := SolveResult{Status: "unknown", File: fileReal}
+		if len(res1) > 0 {
+			r = res1[0]
+			if r.Status != "sat" && r.Status != "unsat" {
+				r.Status = "unknown"
+			}
+		}
+		return r, res1
 	} else {
 		s1 = []job{{solvers[0], fileUF, false, min(secs, 2)}}
 		if usesMod {
